@@ -10,6 +10,7 @@ import (
 	"fmt"
 	"math/rand"
 	"sort"
+	"sync/atomic"
 	"time"
 
 	badger "github.com/dgraph-io/badger/v4"
@@ -18,6 +19,7 @@ import (
 	"verif/h/gen"
 	"verif/h/hist"
 	"verif/h/model"
+	"verif/h/sched"
 )
 
 // Snapshot is an open read transaction that must keep seeing the same data.
@@ -250,6 +252,67 @@ func (w *World) Flush() bool {
 		}
 	}
 	return ok
+}
+
+// FlushHeld rotates the memtable while the flusher is held at its first schedule point, runs during()
+// with the rotated memtable still unflushed (reads must merge it with the active one and the
+// levels), then releases the flusher and waits for the flush. Returns false if nothing was rotated.
+func (w *World) FlushHeld(during func()) bool {
+	hold := make(chan struct{})
+	var holding, held atomic.Bool
+	holding.Store(true)
+	hook := func(name string) {
+		if name == "flush.beforeCreate" && holding.Load() {
+			held.Store(true)
+			<-hold
+		}
+	}
+	ownSched := !sched.Installed()
+	if ownSched {
+		sched.Install(sched.Config{})
+	}
+	sched.PointHook.Store(&hook)
+	release := func() {
+		if holding.Swap(false) {
+			close(hold)
+		}
+	}
+	defer func() {
+		release()
+		sched.PointHook.Store(nil)
+		if ownSched {
+			sched.Uninstall()
+		}
+	}()
+	ok, err := w.DB.VerifRotateMemtable()
+	if err != nil {
+		w.C.Violation(w.Sig+"|flush-error", err.Error(), w.Witness())
+		return false
+	}
+	if !ok {
+		return false
+	}
+	deadline := time.Now().Add(5 * time.Second)
+	for !held.Load() && time.Now().Before(deadline) {
+		time.Sleep(200 * time.Microsecond)
+	}
+	if !held.Load() {
+		release()
+		w.DB.VerifWaitFlushed(20 * time.Second)
+		return false
+	}
+	w.log("rotate with the flusher held")
+	during()
+	release()
+	if !w.DB.VerifWaitFlushed(20 * time.Second) {
+		w.C.Inconclusive("flush did not finish within 20s")
+		return false
+	}
+	w.log("flusher released -> L0 %v", w.DB.VerifLevelOrder(0))
+	if w.Locality > 0 {
+		w.winLo = w.R.Intn(len(w.Keys))
+	}
+	return true
 }
 
 // noteDiscard records an upper bound, independent of badger's own bookkeeping, of the discard
